@@ -107,7 +107,9 @@ func (b *B) I(base int64) (string, int64) {
 	return strconv.FormatInt(v, 10), v
 }
 
-var fracs = []string{"5", "25", "125", "75", "0625", "375", "1234567", "9999999"}
+// more digits than the 1e-7 degree grid of the PBF / API formats: XML carries
+// whatever was written, decoding must not snap it to a grid
+var fracs = []string{"5", "25", "125", "75", "0625", "375", "1234567", "9999999", "123456789", "99999999", "00000001", "7654321987654"}
 
 // F returns a coordinate-like value and its decimal text. The text is written
 // from an integer part and a fraction literal; the value is the correctly
